@@ -154,15 +154,31 @@ Qed.
 Lemma extract_ok : race_extract_ok = true.
 Proof. reflexivity. Qed.
 
-(* every class of the current tree that breaks the discipline is a recorded finding *)
-Lemma table_offenders : subset_b (offenders current_table) current_known_offenders = true.
+(* the table extracted from the current tree meets the discipline: no class offends *)
+Lemma table_ok : lockset_ok current_table = true.
 Proof. vm_compute; reflexivity. Qed.
 
-Lemma subset_nil : forall a, subset_b a [] = true -> a = [].
-Proof. intros [|x a] H; [reflexivity | discriminate]. Qed.
-
-Lemma table_ok_modulo_known : lockset_ok (drop_classes current_known_offenders current_table) = true.
+Lemma table_no_offenders : offenders current_table = [].
 Proof. vm_compute; reflexivity. Qed.
+
+(* the pre-fix variant: the entries as extracted before 25abf76 / 3d636e5 offend, class by class *)
+Lemma prefix_table_offenders :
+  offenders (current_table ++ prefix_offending_table)%list
+  = ["internal/output.groupWriter.buff"; "internal/output.prefixWriter.buff"; "taskfile/ast.MatrixRow.Value"].
+Proof. vm_compute; reflexivity. Qed.
+
+Lemma In_bad_prefix : In bad_entry prefix_offending_table.
+Proof. simpl; tauto. Qed.
+
+Theorem prefix_matrix_refuted :
+  In bad_entry prefix_offending_table /\
+  exists owner sig_owner tr, lockset_ok [bad_entry] = false /\ valid tr /\ annotated owner sig_owner [bad_entry] tr /\ ~ race_free tr.
+Proof.
+  split; [exact In_bad_prefix|].
+  exists (fun _ => None), (fun _ => None), bad_trace.
+  split; [exact bad_table_rejected|]. split; [exact bad_trace_valid|]. split; [exact bad_trace_annotated|].
+  intro H. exact (H 2 3 bad_trace_races).
+Qed.
 
 Lemma In_dedup : forall x l, In x l -> In x (dedup l).
 Proof.
@@ -187,16 +203,8 @@ Section Current.
   Variable owner : oid -> option tid.
   Variable sig_owner : oid -> option tid.
 
-  (* once no finding is open, every execution annotated by the extracted table is race free *)
-  Theorem current_sound : current_known_offenders = [] ->
+  (* every execution annotated by the table extracted from the current tree is race free *)
+  Theorem current_sound :
     forall tr, valid tr -> annotated owner sig_owner current_table tr -> race_free tr.
-  Proof.
-    intros Hnil tr Hv Ha. eapply discipline_sound; eauto.
-    apply offenders_nil_ok. apply subset_nil. rewrite <- Hnil. exact table_offenders.
-  Qed.
-
-  (* meanwhile: executions that do not touch the offending classes are race free *)
-  Theorem current_partial :
-    forall tr, valid tr -> annotated owner sig_owner (drop_classes current_known_offenders current_table) tr -> race_free tr.
-  Proof. intros tr Hv Ha. eapply discipline_sound; eauto. exact table_ok_modulo_known. Qed.
+  Proof. intros tr Hv Ha. eapply discipline_sound; eauto. exact table_ok. Qed.
 End Current.
